@@ -14,7 +14,7 @@
 From Coq Require Import List NArith ZArith Bool Arith.
 From Atlas Require Import Base.Bytes Diff.Schema Diff.DiffModel Diff.DiffSqlite Diff.DiffSqliteProofs
   Sqlite.PlanModel Sqlite.EngineModel Sqlite.InspectModel Sqlite.ConvergeDefs Sqlite.ConvergeSupported
-  Hcl.SpecModel Hcl.SpecProofs.
+  Hcl.SpecModel Hcl.SpecProofs Hcl.SpecDiffProofs Hcl.SpecDiffAutoProofs.
 Import ListNotations.
 
 (** ** the renamed schema *)
@@ -248,3 +248,32 @@ Proof.
   destruct (converges_exported nm d2 _ H) as [p [d' [P [E Y]]]]. exists p, d'.
   split; [exact (hcl_roundtrip_norm _ W)|]. split; [exact P|]. split; [exact E|exact Y].
 Qed.
+
+(** ** D2 = D1: a database's own export plans nothing -- also when it has inline UNIQUE constraints (which
+    [supported] excludes on the current side).  Corollary of C03's [hcl_roundtrip_diff_empty_auto]
+    (FindGeneratedIndex finds the renamed constraint index again); the oracle class exported-self-diff
+    of the stage `exported` checks the same on the Go observations. *)
+Theorem exported_self_apply_noop nm d1 :
+  schema_wf (inspect d1) -> Forall diffable_auto (inspect d1) ->
+  exists B, hcl_roundtrip (inspect d1) = ROk B /\
+    diff_and_plan nm (inspect d1) B = Some (mkPlan [] true true) /\
+    exec_all d1 (plan_stmts (mkPlan [] true true)) = Ok d1 /\ synced nm d1 B.
+Proof.
+  intros W D. destruct (hcl_roundtrip_diff_empty_auto nm (inspect d1) W D) as [B [R [_ E]]].
+  exists B. split; [exact R|]. split.
+  - unfold diff_and_plan, sqlite_schema_diff. rewrite E. reflexivity.
+  - split; [reflexivity|]. unfold synced, inspect_schema, sqlite_schema_diff. exact E.
+Qed.
+
+(** non-vacuity: the engine database u(a int UNIQUE, b text DEFAULT 'x') is inspected as C03's witness [w_u] *)
+From Coq Require Import String.
+Open Scope list_scope.
+Definition ex_u_db : db :=
+  mkDB [mkCT (mkX (mkTable (Bs "u"%string) false false
+         [mkColumn (Bs "a"%string) 2 (Bs "int"%string) true None None None;
+          mkColumn (Bs "b"%string) 3 (Bs "text"%string) true (Some (DLit (Bs "'x'"%string))) None None]
+         None [] [] []) []) [[Bs "a"%string]] []] false false.
+Lemma ex_u_inspect : inspect ex_u_db = [w_u].
+Proof. vm_compute. reflexivity. Qed.
+Lemma ex_self_nonvacuous : schema_wf (inspect ex_u_db) /\ Forall diffable_auto (inspect ex_u_db).
+Proof. rewrite ex_u_inspect. split; [exact w_u_wf|constructor; [exact w_u_diffable|constructor]]. Qed.
